@@ -2,7 +2,7 @@
    [value]. The OCaml driver only parses and prints values; the same [run_case] is evaluated by
    vm_compute in the thorough tier. *)
 From Coq Require Import String Ascii List ZArith NArith Bool DecimalString.
-From Bkl Require Import Model.Value Model.Merge Model.Str Model.Eval Model.Tools Model.Parser Model.Wrapper Model.Files Model.Yaml Model.Root Model.Stream.
+From Bkl Require Import Model.Value Model.Merge Model.Str Model.Eval Model.Tools Model.Parser Model.Wrapper Model.Files Model.Yaml Model.Root Model.Stream Model.Normalize.
 Import ListNotations.
 Local Open Scope string_scope.
 Local Open Scope list_scope.
@@ -117,6 +117,49 @@ Fixpoint dec_ynode (fuel : nat) (v : value) : ynode :=
       end
   end.
 
+(* Go dynamic types before normalisation, as plain values: ["nil"] ["bool", b] ["int", n] ["int64", n] ["float", g]
+   ["jsonint", n] ["jsonfloat", g] ["str", s] ["list", [...]] ["map", [[k, v], ...]] ["mapany"] *)
+Fixpoint enc_raw (r : raw) : value :=
+  match r with
+  | RNull => VList [VStr "nil"]
+  | RBool b => VList [VStr "bool"; VBool b]
+  | RInt z => VList [VStr "int"; VInt z]
+  | RInt64 z => VList [VStr "int64"; VInt z]
+  | RFloat g => VList [VStr "float"; VFloat g]
+  | RJsonInt z => VList [VStr "jsonint"; VInt z]
+  | RJsonFloat g => VList [VStr "jsonfloat"; VFloat g]
+  | RStr s => VList [VStr "str"; VStr s]
+  | RList l => VList [VStr "list"; VList (map enc_raw l)]
+  | RMap m => VList [VStr "map"; VList (map (fun kv => VList [VStr (fst kv); enc_raw (snd kv)]) m)]
+  | RMapAny => VList [VStr "mapany"]
+  end.
+
+Fixpoint dec_raw (fuel : nat) (v : value) : raw :=
+  match fuel with
+  | 0 => RNull
+  | S f =>
+      match v with
+      | VList [VStr t] => if String.eqb t "mapany" then RMapAny else RNull
+      | VList [VStr t; x] =>
+          if String.eqb t "bool" then (match x with VBool b => RBool b | _ => RNull end)
+          else if String.eqb t "int" then (match x with VInt z => RInt z | _ => RNull end)
+          else if String.eqb t "int64" then (match x with VInt z => RInt64 z | _ => RNull end)
+          else if String.eqb t "jsonint" then (match x with VInt z => RJsonInt z | _ => RNull end)
+          else if String.eqb t "float" then (match x with VFloat g => RFloat g | _ => RNull end)
+          else if String.eqb t "jsonfloat" then (match x with VFloat g => RJsonFloat g | _ => RNull end)
+          else if String.eqb t "str" then (match x with VStr s => RStr s | _ => RNull end)
+          else if String.eqb t "list" then (match x with VList l => RList (map (dec_raw f) l) | _ => RNull end)
+          else if String.eqb t "map" then
+            (match x with
+             | VList l => RMap (flat_map (fun kv => match kv with VList [VStr k; y] => [(k, dec_raw f y)] | _ => [] end) l)
+             | _ => RNull end)
+          else RNull
+      | _ => RNull
+      end
+  end.
+
+Definition fmt_of (s : string) : fmt := if String.eqb s "json" then FJson else if String.eqb s "yaml" then FYaml else FToml.
+
 (* a path-level file system: [[comps...], ["dir"] | ["file", content] | ["link", spelled_abs, [comps...]]] *)
 Definition dec_cpath (v : value) : cpath := match v with VList l => map str_of l | _ => [] end.
 Definition dec_tfs (v : value) : tfs :=
@@ -228,6 +271,12 @@ Definition run_case (c : value) : value :=
                     (bkl_cli o (map str_of (list_of (lookup_or_null "fmts" (map_of t)))) (dec_fs fsv) opts)
         | _ => bad_case
         end
+      else if String.eqb opn "normalize" then
+        (* [raw]: normalize.go on the Go value a decoder produced *)
+        match args with [r] => enc_res (fun x => x) (normalize (dec_raw (size r) r)) | _ => bad_case end
+      else if String.eqb opn "arrives" then
+        (* [format; value]: the Go value the format's decoder hands over for a logical value *)
+        match args with [VStr f; v] => enc_raw (arrives (fmt_of f) v) | _ => bad_case end
       else if String.eqb opn "framejoin" then
         (* [[lines of doc 1], [lines of doc 2], ...] -> the lines of the stream *)
         match args with [VList ds] => VList (map VStr (join_docs (map (fun d => map str_of (list_of d)) ds))) | _ => bad_case end
